@@ -7,6 +7,8 @@ use ckb_types::core::BlockNumber;
 use ckb_types::utilities::calc_filter_hash;
 use ckb_types::{packed, prelude::*};
 use log::{debug, info, trace, warn};
+#[cfg(feature = "verif")]
+use crate::verif_hooks::rand_shim as rand;
 use rand::seq::SliceRandom;
 use std::{cmp, sync::Arc};
 
